@@ -1,6 +1,6 @@
 SPECIFICATION Spec
 CONSTANT MaxParams = 2
-CONSTANT Kinds = {"string", "bool", "int", "int8", "int16", "int32", "int64", "float32", "float64", "any", "big", "time", "strs", "ints", "anys", "i32s", "smap"}
+CONSTANT Kinds = {"string", "bool", "int", "int8", "int16", "int32", "int64", "float32", "float64", "any", "big", "time", "strs", "ints", "anys", "i32s", "smap", "appctx"}
 INVARIANT Decided
 INVARIANT SpreadNeedsVariadic
 INVARIANT ArityFixed
